@@ -311,3 +311,12 @@ def build(sess):
     sess.explanation = ('query/command/bootload are executed symbolically for a symbolic request text; the retry loops are '
                         'handled by an inductive invariant (k <= 100 empty reads so far, or the first non-empty line just read), '
                         'every external call forked {returns, raises}. Alignment follows from the two contracts by induction.')
+
+
+def fallback(sess):
+    out = []
+    for fn in ('query', 'command', 'bootload'):
+        r = native('n_c07', 'search', {'fn': fn})
+        r['what'] = f'n_c07.search[{fn}]'
+        out.append(r)
+    return out
